@@ -72,7 +72,23 @@ def c13(ctx, res):
                         "liveness (every call returns) is checked by TLC under weak fairness with the zero-read budget in the state"]
 
 
+def c18(ctx, res):
+    t = "quick" if ctx.quick else "thorough"
+    # complete reachable register space: idempotence, toggle meaning, frame, mutual exclusion, restorability
+    ctx.check(res, "MC_C18.tla", "MC_C18_full_%s.cfg" % t)
+    # every history of two calls, replayed through the public setters
+    ctx.gen_replay(res, "opts", "MC_C18.tla", "MC_C18_hist2.cfg", workers=8)
+    # seeded random walks of 30 calls
+    n = 12 if ctx.quick else 200
+    ctx.gen_replay(res, "opts", "MC_C18.tla", "MC_C18_walk.cfg", workers=8,
+                   extra=["-simulate", "num=%d" % n, "-depth", "31", "-seed", str(ctx.seed)])
+    res.exhaustive = False
+    res.assumptions += ["key prefixes are single punctuation characters, attribute prefixes contain no upper-case letters (property's quantifier)",
+                        "behavioural probes: one fixed input set per operation class; the probe of a class is checked to be influenced by every register the specification lists for it"]
+
+
 PROPS = {
+    "C18": c18,
     "C13": c13,
     "C10": c10,
     "C11": c11,
